@@ -165,8 +165,8 @@ pub fn check_behaviour(cfg: &Config, verif: &Path, target: &Path, frames_file: &
 }
 
 pub fn run(ctx: &Ctx, replay: Option<&J>) -> CheckResult {
-    let rule = "configurations enumerated: every msgNNNN feature of /repo/Cargo.toml alone, the empty selection, all_msgs without std, all_msgs+serde without std, and a seeded sample of \
-        single features with serde; each is built with `cargo check --lib --no-default-features` (the crate is then #![no_std]) — all of them in both tiers (exhaustive); for each, the resolved feature graph (`cargo tree -e features`) must not switch on `std`/`alloc` of any target dependency. Behavioural half: a \
+    let rule = "configurations enumerated: every msgNNNN feature of /repo/Cargo.toml alone, the empty selection, all_msgs without std, all_msgs+serde without std, and every \
+        single feature together with serde; each is built with `cargo check --lib --no-default-features` (the crate is then #![no_std]) — all of them in both tiers (exhaustive); for each, the resolved feature graph (`cargo tree -e features`) must not switch on `std`/`alloc` of any target dependency. Behavioural half: a \
         driver linked against the single-feature build decodes a frame file produced by the full-feature harness (golden + generated + hostile frames of all types with the full build's Debug \
         rendering): frames of its own type must render identically, every other number must be MsgNotSupported{n}; in both tiers for every single-feature configuration, the empty one and all_msgs (thorough adds the serde variants). non-trivial = configuration that compiles and decodes >=1 typed frame; distinct = configuration"
         .to_string();
@@ -186,7 +186,8 @@ pub fn run(ctx: &Ctx, replay: Option<&J>) -> CheckResult {
     configs.push(Config { name: "all_msgs-nostd".into(), features: vec!["all_msgs".into()] });
     configs.push(Config { name: "all_msgs+serde-nostd".into(), features: vec!["all_msgs".into(), "serde".into()] });
     let mut rng = ctx.rng("c19", 0);
-    let nserde = ctx.n(6, 16) as usize;
+    // every single feature also together with serde (build half exhaustive; the behavioural half samples them in quick)
+    let nserde = feats.len();
     let mut pick = feats.clone();
     rng.shuffle(&mut pick);
     for f in pick.iter().take(nserde) {
@@ -272,7 +273,7 @@ pub fn run(ctx: &Ctx, replay: Option<&J>) -> CheckResult {
         if c.name == "all_msgs+serde-nostd" {
             continue;
         }
-        if !with_serde || ctx.tier == Tier::Thorough || c.features.len() == 2 && i % 3 == 0 {
+        if !with_serde || ctx.tier == Tier::Thorough || c.features.len() == 2 && i % 12 == 0 {
             behav.push(i);
         }
     }
